@@ -1,11 +1,11 @@
 --------------------------------- MODULE Denote ---------------------------------
 (* Dispatch from an operation event to its reference meaning.                    *)
-EXTENDS Views, Broadcast, Slice
+EXTENDS Views, Select, Broadcast, Slice
 
-Operand(e, j) == Leaf(e.shapes[j], j - 1)
+Operand(e, j) == IF j <= Len(e.shapes) THEN Leaf(e.shapes[j], j - 1) ELSE Nothing
 
 Expect(e) ==
-    LET a == Operand(e, 1) IN
+    LET a == Operand(e, 1) IN    \* generators have no operand (shapes = <<>>)
     CASE e.op = "reshape"     -> Reshape(a, e.args.dst)
       [] e.op = "flatten"     -> Flatten(a)
       [] e.op = "transpose"   -> Transpose(a, e.args.axes)
@@ -15,6 +15,47 @@ Expect(e) ==
       [] e.op = "squeeze"     -> Squeeze(a)
       [] e.op = "atleast_nd"  -> AtLeastND(a, e.args.nd)
       [] e.op = "flip"        -> Flip(a, e.args.axis)
+      \* C04
+      [] e.op = "tile" -> Tile(a, e.args.reps)
+      [] e.op = "repeat" -> Repeat(a, e.args.repeats, e.args.scalar, e.args.axis)
+      [] e.op = "roll" -> Roll(a, e.args.shift, e.args.axis)
+      [] e.op = "take" -> Take(a, e.args.indices, e.args.axis)
+      [] e.op = "compress" -> Compress(e.args.cond, a, e.args.axis)
+      [] e.op = "concatenate" -> Concatenate(a, Operand(e, 2), e.args.axis)
+      [] e.op = "stack" -> Stack(a, Operand(e, 2), e.args.axis)
+      [] e.op = "hstack" -> HStack(a, Operand(e, 2))
+      [] e.op = "vstack" -> VStack(a, Operand(e, 2))
+      [] e.op = "dstack" -> DStack(a, Operand(e, 2))
+      [] e.op = "column_stack" -> ColumnStack(a, Operand(e, 2))
+      [] e.op = "split" -> LET parts == IF e.args.sections # <<>> THEN SplitSections(a, e.args.sections[1], e.args.axis)
+                                        ELSE SplitIndices(a, e.args.indices, e.args.axis)
+                           IN IF Len(parts) = 0 THEN Nothing
+                              ELSE [ok |-> TRUE, shape |-> [q \in 1..Len(parts) |-> parts[q].shape], elems |-> [q \in 1..Len(parts) |-> parts[q].elems]]
+      [] e.op = "sliding_window" -> SlidingWindow(a, e.args.window, e.args.axis)
+      [] e.op = "diagonal" -> Diagonal(a, e.args.offset, e.args.axis1, e.args.axis2)
+      [] e.op = "diagflat" -> DiagFlat(a, e.args.k)
+      [] e.op = "tril" -> Tril(a, e.args.k)
+      [] e.op = "triu" -> Triu(a, e.args.k)
+      [] e.op = "where" -> LET r == BShapeN(e.shapes) IN
+            IF ~r[1] THEN Nothing
+            ELSE LET cnd == BroadcastTo(a, r[2])  x == BroadcastTo(Operand(e, 2), r[2])  y == BroadcastTo(Operand(e, 3), r[2])
+                 IN [ok |-> TRUE, shape |-> r[2], elems |-> [q \in 1..Len(x.elems) |-> IF cnd.elems[q] % 2 = 1 THEN x.elems[q] ELSE y.elems[q]]]
+      [] e.op = "arange" -> Arange(e.args.start, e.args.stop, e.args.step)
+      [] e.op = "arange2" -> Arange(e.args.start, e.args.stop, 1)
+      [] e.op = "arange1" -> Arange(0, e.args.stop, 1)
+      [] e.op = "linspace" -> LinspaceScaled(e.args.start, e.args.stop, e.args.num, e.args.endpoint)
+      [] e.op = "eye" -> Eye(e.args.n, e.args.m, e.args.k)
+      [] e.op = "identity" -> Eye(e.args.n, e.args.n, 0)
+      [] e.op = "tri" -> Tri(e.args.n, e.args.m, e.args.k)
+      [] e.op = "full" -> Full(e.args.shape, e.args.value)
+      [] e.op = "zeros" -> Full(e.args.shape, 0)
+      [] e.op = "ones" -> Full(e.args.shape, 1)
+      [] e.op = "full_like" -> Full(a.shape, e.args.value)
+      [] e.op = "zeros_like" -> Full(a.shape, 0)
+      [] e.op = "ones_like" -> Full(a.shape, 1)
+      [] e.op = "pad" -> Pad(a, e.args.widths, e.args.value)
+      [] e.op = "resize" -> Resize(a, e.args.dst)
+      [] e.op = "expand" -> Expand(a, e.args.axis, e.args.spacing, e.args.fill)
       \* C05
       [] e.op = "slice" -> SliceView(a, e.args.parts)
       \* C06
